@@ -336,6 +336,13 @@ func runC10(c *eng.Ctx) {
 	})
 
 	// ---- 2b. memory is read BEFORE the snapshot is picked (entries only move memory -> kv store; F9/F11) ------------------------------
+	c.Rule("UNION", "flow.groupingContext.scanGroupingTags{every scanner of every tag key}", func() {
+		f := c.Fn("flow.groupingContext.scanGroupingTags")
+		c.One(f, invokeOn("", "GetSeriesAndTagValue"), "scanner.GetSeriesAndTagValue(highKey)")
+		visitsEveryElement(c, f, "no-scanner-skipped",
+			"group-by resolution asks every grouping scanner (mutable, immutable, each forward-index file) of every tag key; a scanner without the container is skipped, not the end of the scan")
+	})
+
 	c.Rule("ORDER", "index{memory read < snapshot}", func() {
 		memoryBeforeSnapshot(c, []orderedReader{
 			{"index.invertedIndex.getSeriesIDs", "index.invertedIndex", invokeOn(".family", "GetSnapshot"), true},
